@@ -810,6 +810,8 @@ class Run(object):
             return self.is_same(st, b, a)
         if isinstance(a, ObjV) and isinstance(b, ObjV):
             return Eq(a.term, b.term)
+        if isinstance(a, TupleV) and isinstance(b, ClassV):
+            return self.equal(st, a, b)
         if isinstance(a, ListV) and isinstance(b, ListV):
             if a.cell == b.cell:
                 return TRUE
@@ -842,6 +844,11 @@ class Run(object):
             return self.equal(st, b, a)
         if isinstance(a, ClassV) and isinstance(b, ClassV):
             return B(a.qual == b.qual)
+        if isinstance(b, TupleV) and isinstance(a, ClassV):
+            return self.equal(st, b, a)
+        if isinstance(a, TupleV) and len(a.items) == 2 and isinstance(a.items[0], T) and a.items[0].op == "#str" and a.items[0].val == "#typeof" and isinstance(b, ClassV):
+            UFS["cls"] = ([REF], INT)
+            return Eq(App("cls", (a.items[1],), INT), I(self.engine.class_id(b.qual)))
         raise Unsupported("== on %r,%r" % (a, b))
 
     def contains(self, st, container, x, node=None):
@@ -893,6 +900,13 @@ class Run(object):
         ty = self.type_of(st, items[0])
         seq = Concat(*[Unit(self.raw(st, x)) for x in items])
         return ListV(self.new_cell(st, seq), ty)
+
+    def ev_Dict(self, node, st):
+        if node.keys:
+            raise Unsupported("non-empty dict literal")
+        ref = self.fresh("new_dict", REF)
+        st.ghost["#allocated"] = set(st.ghost.get("#allocated", ())) | {str(ref)}
+        return ObjV(ref, "builtins.dict")
 
     def ev_Tuple(self, node, st):
         return TupleV([self.ev(e, st) for e in node.elts])
@@ -1159,7 +1173,10 @@ class Run(object):
         if "builtins." + name in self.engine.contracts:
             return self.call_function(st, "builtins." + name, args, kwargs, node)
         if name == "type":
-            raise Unsupported("type()")
+            (a,) = args
+            if isinstance(a, ObjV):
+                return TupleV([S("#typeof"), a.term])
+            raise Unsupported("type() of %r" % (a,))
         raise Unsupported("builtin " + name)
 
     def to_iter(self, st, v):
@@ -1514,9 +1531,13 @@ class Run(object):
             st.ghost[n] = self.fresh("callee" + n, INT)
         for h in heads:
             st.ghost.pop("#lasthead" + h, None)
+        hyp = [self.spec_bool(a, pre_state, env=dict(env), old=pre_state) for a in contract.get("assume", [])]
         try:
             for e in ens:
-                st.assume(self.guarded(st, self.spec_bool(e, st, env=post_env, old=pre_state, result=res)))
+                t = self.spec_bool(e, st, env=post_env, old=pre_state, result=res)
+                if hyp and not contract.get("assume_free", []).count(e):
+                    t = Implies(And(*hyp), t)
+                st.assume(self.guarded(st, t))
         finally:
             for n, v in list(saved_g.items()) + list(saved_h.items()):
                 if v is None:
@@ -1753,6 +1774,15 @@ class Run(object):
                 lo2 = I(0) if lo is None else Ite(Lt(lo, I(0)), tm.Max(Add(n, lo), I(0)), tm.Min(lo, n))
                 hi2 = n if hi is None else Ite(Lt(hi, I(0)), tm.Max(Add(n, hi), I(0)), tm.Min(hi, n))
                 hi3 = tm.Max(hi2, lo2)
+                if lo2.op not in ("#int", "#const"):
+                    c = self.fresh("slo", INT)
+                    st.assume(Eq(c, lo2))
+                    hi3 = tm.subst_term(hi3, lo2, c)
+                    lo2 = c
+                if hi3.op not in ("#int", "#const"):
+                    c = self.fresh("shi", INT)
+                    st.assume(Eq(c, hi3))
+                    hi3 = c
                 if not isinstance(v, ListV):
                     raise Unsupported("slice store of non-list")
                 nv = st.cells[v.cell][0]
@@ -2197,6 +2227,10 @@ class Run(object):
             if c.kind in ("normal", "return"):
                 val = c.value if c.kind == "return" else NONE
                 rt = ct.get("returns")
+                for g, gexpr in ct.get("ghost_exit", {}).items():
+                    # ghost code (specification only): executed at every normal exit
+                    gv = self.spec(gexpr, c.st, old=st0)
+                    c.st.ghost[g] = gv
                 if rt and isinstance(val, NoneV) and parse_type(rt).kind not in ("opt", "none"):
                     self.prove(c.st, FALSE, "post", fdef, "returns-" + rt)
                     continue
